@@ -79,23 +79,23 @@ PROPS = {
         "assumptions": ASSUME_VALID,
     },
     "C05": P(["Spec/Scoping.v", "Proofs/Scoping.v"] + MASTER + ["Properties/C05.v"], ["corr_C05", "spec_C05"],
-             gens.gen_projects,
+             gens.with_histories(gens.gen_projects),
              "hand-picked naming relations (ambiguous imports, partial qualification, built-ins imported or not, duplicate keys) + "
              "random projects of 1-6 files with adversarially similar names, references in all four positions nested to depth 4"),
     "C06": P(["Spec/Scoping.v", "Proofs/Scoping.v"] + MASTER + ["Properties/C06.v"], ["corr_C06", "spec_C06"],
-             gens.gen_projects,
+             gens.with_histories(gens.gen_projects),
              "same project stream as C05: import lists with duplicates, unresolvable, resolvable-unused, used only deep inside "
              "generics, built-in imports; forward declarations qualified/unqualified, duplicated, shadowed by imports"),
     "C07": P(["Spec/Categories.v", "Proofs/Direction.v"] + MASTER + ["Properties/C07.v"], ["corr_C07", "spec_C07"],
-             gens.gen_C07,
+             gens.with_histories(gens.gen_C07),
              "exhaustive: 17 type categories (multi-file support project) x {none,in,out,inout} x method oneway x interface "
              "oneway x 3 argument positions = 816 cases; plus random projects"),
     "C08": P(["Spec/Elements.v", "Proofs/Elements.v"] + MASTER + ["Properties/C08.v"], ["corr_C08", "spec_C08"],
-             gens.gen_C08,
+             gens.with_histories(gens.gen_C08, every=5),
              "exhaustive container shapes to nesting depth 2 over all 17 leaf categories (depth 3: sample of 12000 in thorough), "
              "12 per file, rotating through field / return / argument / constant position; plus random projects"),
     "C10": P(["Spec/Oneway.v", "Proofs/Oneway.v"] + MASTER + ["Properties/C10.v"], ["corr_C10", "spec_C10"],
-             gens.gen_C10,
+             gens.with_histories(gens.gen_C10, every=5),
              "exhaustive: interface oneway x method oneway x 17 return categories; 2-3 methods over {void,int,Par,Nope} x oneway "
              "with constants mixed in (3 methods sampled 25% in quick); oneway keyword after annotations/comments; random projects"),
     "C15": P(["Model/Traverse.v", "Spec/Nodes.v", "Proofs/Traverse.v", "Properties/C15.v"], [],
@@ -137,7 +137,7 @@ PROPS = {
              assumptions=["Model/ParserState.v corresponds to src/parser.rs (checked on key sets per step); parse is a parameter of the theorems",
                           "add_file exercised with real temporary files (existing, missing, invalid UTF-8)"]),
     "C13": P(["Proofs/Locality.v"] + MASTER + ["Properties/C13.v"], ["corr_validate"],
-             gens.gen_C13,
+             gens.with_histories(gens.gen_C13),
              "random projects; target = first file; perturbations of the rest: add an unrelated file, remove a non-imported file, "
              "rewrite body/imports/docs of every other file keeping package, name and kind; the digest of the target's result "
              "(tree + diagnostics incl. messages) must not change; kind changes of imported files are run as negative control and counted",
@@ -148,7 +148,7 @@ PROPS = {
              "full vocabulary (incl. unlexable characters) and 3 token-level mutations; for every syntax error that carries an "
              "expectation vector (hook) the names read back from the message are compared with the vector (sizes 0-15); a case is "
              "non-trivial when distinct",
-             runs=[("parse", "P", ["spec_C20", "corr_C20"])],
+             runs=[("parse", "P", ["spec_C20", "corr_C20", "corr_parse"])],
              assumptions=["the formatter model (Model/Diag.v) corresponds to expected_token_str: checked on every message of the run",
                           "the expectation vector is the one recorded by the verif-hooks recorder in from_parse_error",
                           "KNOWN FINDING: names are dropped for vectors of 3 or more (theorem C20_known); only that exact class is tolerated"]),
